@@ -1428,6 +1428,10 @@ class SpaceManager(SharedSpaceOperations):
         if not self._can_add(cells.parent, name, CellsImpl):
             raise ValueError("cannot create cells '%s'" % name)
 
+        for space in self._get_subs(cells.parent):
+            if name in space.cells:     # would be replaced by the renamed
+                raise ValueError("cannot create cells '%s'" % name)
+
         if cells.bases:
             raise ValueError("'%s' is a sub Cells of '%s'" % (
                 cells.get_repr(fullname=True, add_params=False),
@@ -1438,6 +1442,9 @@ class SpaceManager(SharedSpaceOperations):
         for space in self._get_subs(cells.parent, skip_self=False):
             space.clear_subs_rootitems()
             space.cells[old_name].on_rename(name)
+
+        # A sub space may still derive old_name from another base
+        self.update_subs(cells.parent)
 
     def sort_cells(self, space):
         """Sort cells in a space
